@@ -88,6 +88,8 @@ def tree_view(tree, git, strict):
     root_id = None
     rec = {}
     tree_view.recorded_exec = rec
+    stored = {}
+    tree_view.stored_kinds = stored  # path -> kind the inventory / index records (directories included, also for git)
 
     def call(api, path, *a):
         try:
@@ -110,6 +112,7 @@ def tree_view(tree, git, strict):
             if path == "":
                 root_id = getattr(ie, "file_id", None)
                 continue
+            stored[path] = ie.kind
             if git and ie.kind == "directory":
                 continue
             d = {}
@@ -266,13 +269,14 @@ def full_state(path, git):
 
     wt = WorkingTree.open(path)
     view, root = tree_view(wt, git, False)
+    stored = dict(tree_view.stored_kinds)
     with wt.lock_read():
         basis = wt.basis_tree()
         with basis.lock_read():
             ch = canon_changes(wt.iter_changes(basis), git, (root,))
         conflicts = sorted(str(c) for c in wt.conflicts())
         parents = list(wt.get_parent_ids())
-    return {"disk": observe.snap_disk(path), "view": view, "root": root, "changes": ch, "conflicts": conflicts, "parents": parents}
+    return {"disk": observe.snap_disk(path), "view": view, "root": root, "changes": ch, "conflicts": conflicts, "parents": parents, "stored": stored}
 
 
 def state_diff(a, b):
@@ -294,7 +298,7 @@ def build_start_tree(ctx, rng, fmt):
 
     names = gen.Names(ctx.tier)
     W = dict(gen.DEFAULT_WEIGHTS)
-    W.update({"add": 16, "mkfile": 8, "mkdir": 5, "symlink": 2, "chmod": 3})
+    W.update({"add": 16, "mkfile": 8, "mkdir": 5, "symlink": 2, "chmod": 7})
     log = []
     if fmt == "2a" and rng.random() < 0.12:
         h = gen.build_history(ctx, rng, fmt, nrevs=rng.randint(2, 4), nbranches=2, names=names, weights=W)
@@ -586,7 +590,7 @@ def case(ctx):
                      {"passes": repr(res.passes[:3])[:800]})
         if outcome == "malformed":
             try:
-                shapes, touched = describe_shapes(ctx, tt, R.facts(tt), git, label, before, script)
+                shapes, touched = describe_shapes(ctx, tt, R.facts(tt), git, label, before, script, res.actions)
             except (KeyboardInterrupt, SystemExit):
                 raise
             except Exception:
@@ -599,7 +603,7 @@ def case(ctx):
             # the transform that is about to be applied: "no raw conflicts" must be what the definitions say, and its op shapes name the
             # mechanism of whatever goes wrong from here on
             fs = check_raw(ctx, tt, git, label, "resolved")
-            shapes, touched = describe_shapes(ctx, tt, fs, git, label, before, script)
+            shapes, touched = describe_shapes(ctx, tt, fs, git, label, before, script, res.actions)
             # ---- preview snapshot BEFORE apply
             snap = take_preview(ctx, tt, wt, git, label, before, "tt", nameless(script))
             snap["shapes"] = shapes
@@ -678,11 +682,11 @@ def case(ctx):
                      "actions": sorted(set(res.actions)), "paths_changed": nchanged})
 
 
-def describe_shapes(ctx, tt, fs, git, label, before, script):
+def describe_shapes(ctx, tt, fs, git, label, before, script, actions=None):
     shapes, touched = set(), set()
     if fs is not None:
         try:
-            shapes = R.shapes(tt, fs, git, before["view"], before["disk"])
+            shapes = R.shapes(tt, fs, git, before["view"], before["disk"], before.get("stored") or {})
             touched = R.touched_paths(tt, fs)
         except (KeyboardInterrupt, SystemExit):
             raise
@@ -690,6 +694,8 @@ def describe_shapes(ctx, tt, fs, git, label, before, script):
             ctx.hist("shapes-skipped:%s" % type(e).__name__)
     if nameless(script):
         shapes.add("nameless-trans-id")
+    for a in sorted(set(actions or ())):
+        shapes.add("after-resolver:%s" % a[0].replace(" ", "-"))
     ctx.info["shapes"] = sorted(shapes)
     for sh in shapes:
         ctx.hist("shape:%s:%s" % (label, sh))
